@@ -33,6 +33,11 @@ import (
 type config struct {
 	Min, Max int
 	Follower bool
+	// ConsFail: "all": every LogPin/LogUnpin of the consensus component
+	// fails during the call; "first": only the first one does. A failed
+	// consensus call writes nothing, so a request that needed it must report
+	// an error: a success would acknowledge a change that was not made.
+	ConsFail string
 }
 
 func (c config) String() string {
@@ -40,10 +45,13 @@ func (c config) String() string {
 	if c.Follower {
 		f = "follower"
 	}
+	if c.ConsFail != "" {
+		f += "+consensus-fails:" + c.ConsFail
+	}
 	return fmt.Sprintf("rf=%d/%d,%s", c.Min, c.Max, f)
 }
 
-var factorConfigs = []config{{-1, -1, false}, {1, 2, false}, {2, 2, false}}
+var factorConfigs = []config{{Min: -1, Max: -1}, {Min: 1, Max: 2}, {Min: 2, Max: 2}}
 
 // rig is one real single-peer Cluster inside the current bubble.
 type rig struct {
@@ -185,6 +193,14 @@ type result struct {
 // exec runs one call of the alphabet on the real Cluster; a panic of the code
 // under test is caught and reported as such.
 func (r *rig) exec(c call) (res result) {
+	if r.cfg.ConsFail != "" {
+		n := 0
+		if r.cfg.ConsFail == "first" {
+			n = 1
+		}
+		r.sh.SetFailNth(n, errors.New("injected: the consensus component could not commit"))
+		defer r.sh.SetFailNth(0, nil)
+	}
 	defer func() {
 		if x := recover(); x != nil {
 			res.Panic = fmt.Sprint(x)
